@@ -131,7 +131,9 @@ CHECKS["C11"] = dict(
          "get_gate(where) has its factors in the order of where, get_gate_expm exponentiates x * that term. (b) For symbolic t0, dt, T1 <= T2 with (T - t0) <= 3 dt (4 dt thorough), orders 1, 2, 4, "
          "L = 3..6: t == T exactly at return, queue drained, step sizes dt,...,dt,remainder, the recorded sweeps (adjacent equal layers merged) are the documented palindromic formula per step, "
          "per bond the exponents sum to T - t0, every bond lies in exactly one layer, layers consist of disjoint bonds (except odd periodic chains, as documented); the same holds at every state yielded by at_times, and in imaginary time the renormalised site is the tracked orthogonality centre. (c) One step through the real "
-         "sweeps (L = 3, 4; order 1, 2; open and periodic) equals the reference product of the requested exponentials applied to the initial state, with generators -i dt frac * term(bond).",
+         "sweeps (L = 3, 4; order 1, 2; open and periodic) equals the reference product of the requested exponentials applied to the initial state, with generators -i dt frac * term(bond). "
+         "(d) Arbitrary-geometry TEBDGen sweeps (chain, triangle, star; every ordering kind; with / without second_order_reflect; three successive sweeps): one exponential per term per sweep in the "
+         "requested ordering (mirrored with halved steps when reflecting), generators -(tau/factor) * term, the caller's ordering object unmodified.",
     note="Trusted: z3, qv engines, LAPACK contracts. (b) replaces MPS and gate cache by recorders; (c) treats expm as uninterpreted per generator (real scipy expm in the numeric cross-run). "
          "Outside: convergence-rate measurements, err estimate, truncation, 2D/3D simple update beyond the Hamiltonian object.",
     design="3/C11",
@@ -154,7 +156,8 @@ CHECKS["C06"] = dict(
          "swap-split-gate, auto-split-gate, swap+split, auto-mps, gate_split, gate_with_auto_swap; nonlocal / sub-MPO in the thorough tier), with transpose / dagger and upper / lower / sandwich "
          "application to operators, the dense result equals (gate embedded on the targets in the given order) times the dense input for all entry values; outer labels, site tags and MPS form "
          "are preserved; tag propagation follows the documented options; Tensor.gate and gate_inds_with_tn likewise.",
-    note="Trusted: z3, qv engines, LAPACK contracts (split modes; real entries there). Outside: truncating calls, PTensor gates, block-sparse arrays, 3D, simple-update gauges beyond value preservation.",
+    note="Trusted: z3, qv engines, LAPACK contracts (split modes; real entries there). Numeric cross-run only (certificate search gave no verdict within 400 CPU s): split / reduce-split of a "
+         "pair on the 4-node graph, nonlocal / gate_nonlocal / gate_with_submpo on MPS, PEPS D = 2 split modes, non-adjacent gate_simple pairs. Outside: truncating calls, PTensor gates, block-sparse arrays, 3D, simple-update gauges beyond value preservation.",
     design="3/C06",
 )
 
@@ -185,7 +188,8 @@ CHECKS["C09"] = dict(
     text="Bounded symbolic model checking: for chains of L = 2-4 (5 for generators) with bond 1-2 and site-dependent physical dimensions, open and periodic, in every array layout: "
          "constructors (incl. site subsets), from_dense / to_dense, sums, products, apply / gate_with_mpo, identity and product builders, fill_empty_sites, partial_trace_to_mpo and Schmidt / "
          "entropy routines denote the dense objects they document for all entry values; direct, dm and zipup compression (both sweep directions, MPS / sum / two-layer / MPO inputs) is exact "
-         "when the cap is not binding, respects a binding cap, and the reported truncation error equals the norm of what was discarded.",
+         "when the cap is not binding, respects a binding cap, and the reported truncation error equals the norm of what was discarded; options incl. normalize with sweep_reverse; "
+         "partial_trace_to_dense_canonical / local_expectation_canonical on ascending and non-ascending site tuples equal the dense partial trace in the requested site order.",
     note="Trusted: z3, qv engines, LAPACK contracts. Outside: iterative / randomised compression methods (numeric cross-run only), rounding, Hamiltonian builders, other backends, L = 1.",
     design="3/C09",
 )
